@@ -145,6 +145,22 @@ func checkC19(c *core.Check) {
 	if c.Tier == "thorough" {
 		runs = []mc{{"MC_GenDir.cfg", 4}, {"MC_GenDir_dne3.cfg", 8}, {"MC_GenDir_len4.cfg", 8}, {"MC_GenDir_thorough.cfg", 16}}
 	}
+	if c.Tier == "thorough" {
+		// histories of any length: GenDirInd.tla restates the step-level model with type annotations; Apalache checks that
+		// IndInv (the directory matches the last successful invocation; files behind the current step already hold what
+		// the run leaves; user files untouched) holds initially and is preserved by every step - user edits of owned
+		// files and changes of the header option between runs included
+		base, out0, err0 := core.RunApalache("GenDirInd", "Init", "IndInv", 0, 10*time.Minute)
+		step, out1, err1 := core.RunApalache("GenDirInd", "IndInit", "IndInv", 1, 10*time.Minute)
+		if err0 != nil || err1 != nil {
+			c.HarnessError(fmt.Sprintf("apalache-mc (GenDirInd): %v %v", err0, err1))
+			return
+		}
+		if !base || !step {
+			c.Note("MODEL: GenDirInd.IndInv is not inductive (base=%v step=%v): %s %s", base, step, trunc(out0, 300), trunc(out1, 300))
+		}
+		c.Cov["inductive_invariant"] = map[string]any{"module": "GenDirInd", "invariant": "IndInv", "base_case": base, "inductive_step": step, "tool": "apalache-mc --length=0 / --length=1"}
+	}
 	userFiles := []string{"notes.txt", "zz_user.go"}
 	files := append(append([]string{}, c19Owned...), userFiles...)
 
